@@ -69,6 +69,25 @@ CLAIMED = {
              "detector on the sampled schedules.",
         tech="Rocq proof (ownership invariant of the pool simulation; mutex discipline of the shared options and cache, over all interleavings) + race-detector correspondence",
         ref="DESIGN.md 5/C05"),
+    "C08": dict(
+        text="Coq theorems: a validator object built without recycling is unchanged by any history of validations and its n-th call "
+             "returns what a freshly built validator returns on that value; repetition gives the same; with recycling the object is "
+             "single use (the mechanism); message sets and verdicts are independent of the order in which messages were added (map "
+             "iteration order). Tie: histories of 4..18 values on schema / parameter / header validators, every call compared with a "
+             "fresh validator and with its repetition (verdict + sorted messages), and with the L1 model's verdict and error count.",
+        note=TB + "No axioms. Order independence is proved for the message-set operation the validators use, not yet for every loop of the "
+             "pipeline (the harness observes different map orders by itself).",
+        tech="Rocq proof (state machine of the validator object; permutation invariance of the message set) + history correspondence",
+        ref="DESIGN.md 5/C08"),
+    "C12": dict(
+        text="Partial, by design: a write-effect abstraction. Coq: the model of validation returns a result and no instance data (only "
+             "post-processing produces data, and keeps present members); a schema without references is resolved to itself at every "
+             "fuel, so the only in-place write of validation (reference expansion) never happens on it. Tie: deep snapshots of the "
+             "instance, typed values and reference-free schemas before and after every call, through validator objects and AgainstSchema; "
+             "document-level snapshots belong to the spec-level checks.",
+        note=TB + "No axioms. A Go statement writing through an alias the model does not represent is caught only by the snapshots.",
+        tech="Rocq proof (effect abstraction: reference-free schemas are never expanded) + before/after snapshot correspondence",
+        ref="DESIGN.md 5/C12"),
     "C11": dict(
         text="Coq theorem over the redeem protocol with Go's unwinding semantics: for every validator tree and every abort point k (the "
              "k-th invocation of caller-supplied code panics, deferred functions run innermost first) every validator object is "
